@@ -86,7 +86,14 @@ def retransmission(r):
 
 def element(r, hostile=True):
     """One stream element with a label."""
-    k = r.randrange(24 if hostile else 9)
+    k = r.randrange(25 if hostile else 9)
+    if k == 24:   # a frame whose command header is all zero (falsy as an integer); its body ends like the start of a
+        # frame, and the bytes behind it - garbage, there is no start marker - would complete exactly that frame
+        tail = bytes(r.getrandbits(8) for _ in range(4))
+        ghost_rest = bytes([6, 0xC0 | (r.randrange(4) << 2)])
+        ghost_rest += bytes([crc8(b"\x0b\x00" + ghost_rest)]) + crc16(tail).to_bytes(2, "little") + tail
+        body = bytes(4) + bytes(r.getrandbits(8) for _ in range(r.choice([0, 3, 9]))) + r.choice([b"", b"\xde\xad", b"\xde\xad\x0b\x00", b"\xde\xad\x0b\x00"])
+        return "zero-header", raw_frame(r.choice([0xC0, 0x40]) | (r.randrange(4) << 2), body) + r.choice([b"", ghost_rest, ghost_rest])
     if k == 23:   # a checksum-valid frame with a body whose flags say "acknowledgement" (plus any other flag combination)
         body = bytes(r.getrandbits(8) for _ in range(r.choice([4, 6, 9, 40])))
         return "ack-flagged-data", raw_frame(0x01 | r.choice([0xC0, 0x40, 0x80, 0x00]) | (r.randrange(4) << 2) | (r.randrange(4) << 4), body)
